@@ -30,7 +30,8 @@ Accepted grammar (everything else -> TranslateError naming file, line and constr
                  inheritance: a member not overridden in the OffDiagonal class is the Longitudinal one, and
                  every method is translated once per *instance* class (self.X resolves through the MRO)
   statements     docstring;  NAME = expr  (single assignment, fresh non-reserved name, value not a bare name);
-                 NAME[numpy.where(self.t_array == 0), :] = 0  on a fresh local of axes (T,V)  (-> is0 t guard);
+                 NAME[numpy.where(self.t_array == 0), :] = 0  on a fresh, not yet used local of axes (T,V)
+                 (-> `if is0 t then zero else ...` guard);
                  return expr  (last statement)
   expressions    int constants (integral floats), + - * /, ** with constant exponent 0..4, unary - +,
                  numpy.exp(e), numpy.prod(self.e, axis=0), tuples, TUPLE[int], ARRAY[nax|:, ...] with exactly one
@@ -54,10 +55,13 @@ class TranslateError(Exception):
 
 def bail(node, why, fname=SRC):
     line = getattr(node, "lineno", "?")
-    try:
-        txt = ast.unparse(node)
-    except Exception:
-        txt = ""
+    if isinstance(node, (ast.FunctionDef, ast.ClassDef)):
+        txt = node.name
+    else:
+        try:
+            txt = ast.unparse(node)
+        except Exception:
+            txt = ""
     if len(txt) > 160:
         txt = txt[:157] + "..."
     raise TranslateError("%s:%s: %s: %s `%s`" % (fname, line, why, type(node).__name__, txt))
@@ -415,6 +419,7 @@ class Translator:
             bail(e, "unsupported constant (only integers)")
         if isinstance(e, ast.Name):
             if e.id in st["env"]:
+                st["env"].setdefault("@reads", set()).add(e.id)
                 return st["env"][e.id]
             if e.id == "h_div_k":
                 return Arr((), ("const", "c_hdk"))
@@ -617,6 +622,8 @@ class Translator:
         a = env[tg.value.id]
         if not (isinstance(a, Arr) and a.fresh):
             bail(s, "in-place assignment to an array that is not a fresh local (it may alias a cached property)")
+        if tg.value.id in env.get("@reads", ()):
+            bail(s, "in-place assignment to a local that was already used (a view or alias of it may exist)")
         if a.sig != TV:
             bail(s, "the T = 0 guard is only understood on an array of axes (T,V), not %s" % fmt_sig(a.sig))
         sl = tg.slice
@@ -774,6 +781,11 @@ def translate(src, calc_src=None, mg_src=None):
                 defined.append(d[0])
         out.append("")
     out.append("End Gen.")
+    if defined:
+        out.append("\n(* the tie proofs unfold the generated functions with [autounfold with gen_nonshear] *)")
+        out.append("Create HintDb gen_nonshear.")
+        out.append("#[export] Hint Unfold\n  %s : gen_nonshear." % "\n  ".join(
+            " ".join(defined[i:i + 8]) for i in range(0, len(defined), 8)))
     return dict(gen="\n".join(out) + "\n", errors=errors, defined=defined, helpers=sorted(tr.inlined_helpers))
 
 
